@@ -259,7 +259,10 @@ Lemma resolve_known L t : known L t ->
 Proof.
   intros [i Hi]. unfold sid. rewrite Hi. destruct (find_by_name_spec _ _ _ Hi) as (A & B & C).
   split; [|split; assumption]. unfold resolve_sid, ctx_of, system_ctx.
-  replace (i =? 0) with false by lia. rewrite <- map_app, nth_error_map, C. reflexivity.
+  replace (i =? 0) with false by lia.
+  replace (N.of_nat (length (map Some system_symbols ++ map Some L)) <? i) with false
+    by (rewrite app_length, !map_length; pose proof system_len as SL; symmetry; apply N.ltb_ge; lia).
+  rewrite <- map_app, nth_error_map, C. reflexivity.
 Qed.
 (* ---- one step of the specification decoder ------------------------------------------------------------ *)
 Definition sp_payload (f : nat) (ctx : symctx) (t len : N) (body rest : list N) : option (option value * list N) :=
